@@ -43,6 +43,8 @@ type Stats struct {
 	Selects    int
 	ChanRanges int
 	MapRanges  int
+	CtxErrs    int
+	CtxCancels int
 	SyncImport int
 	Hash       string
 }
@@ -58,6 +60,8 @@ type rewriter struct {
 	// decisions taken in pre-order (children are replaced before parents are visited in post-order)
 	mapRange  map[*ast.RangeStmt]bool
 	chanRange map[*ast.RangeStmt]bool
+	ctxErr    map[*ast.CallExpr]bool
+	ctxCancel map[*ast.CallExpr]bool
 }
 
 func id(s string) *ast.Ident { return ast.NewIdent(s) }
@@ -108,6 +112,69 @@ func (r *rewriter) isMap(e ast.Expr) bool {
 	}
 	_, ok := t.Underlying().(*types.Map)
 	return ok
+}
+
+// isCtxErrCall: x.Err() where x implements context.Context. Context state is shared memory that the
+// context package synchronises internally (invisible to the scheduler), so reading it is made a
+// scheduling point.
+func (r *rewriter) isCtxErrCall(c *ast.CallExpr) bool {
+	if r.info == nil || len(c.Args) != 0 {
+		return false
+	}
+	se, ok := c.Fun.(*ast.SelectorExpr)
+	if !ok || se.Sel.Name != "Err" {
+		return false
+	}
+	t := r.typeOf(se.X)
+	if t == nil {
+		return false
+	}
+	ms := types.NewMethodSet(t)
+	for _, m := range []string{"Deadline", "Done", "Err", "Value"} {
+		found := false
+		for i := 0; i < ms.Len(); i++ {
+			if ms.At(i).Obj().Name() == m {
+				found = true
+				break
+			}
+		}
+		if !found {
+			return false
+		}
+	}
+	return true
+}
+
+// isCancelCall: a call of a function VALUE (variable or field, not a declared function) that is a
+// context cancel function: its type is context.CancelFunc / CancelCauseFunc, or it is a func()
+// whose name contains "cancel".
+func (r *rewriter) isCancelCall(c *ast.CallExpr) bool {
+	if r.info == nil {
+		return false
+	}
+	var idn *ast.Ident
+	switch f := c.Fun.(type) {
+	case *ast.Ident:
+		idn = f
+	case *ast.SelectorExpr:
+		idn = f.Sel
+	default:
+		return false
+	}
+	obj, ok := r.info.Uses[idn].(*types.Var)
+	if !ok {
+		return false
+	}
+	t := obj.Type()
+	if n, ok := t.(*types.Named); ok && n.Obj().Pkg() != nil && n.Obj().Pkg().Path() == "context" &&
+		(n.Obj().Name() == "CancelFunc" || n.Obj().Name() == "CancelCauseFunc") {
+		return true
+	}
+	sig, ok := t.Underlying().(*types.Signature)
+	if !ok || sig.Params().Len() != 0 || sig.Results().Len() != 0 || len(c.Args) != 0 {
+		return false
+	}
+	return strings.Contains(strings.ToLower(idn.Name), "cancel")
 }
 
 func (r *rewriter) isBuiltin(fun ast.Expr, name string) bool {
@@ -175,6 +242,12 @@ func (r *rewriter) pre(c *astutil.Cursor) bool {
 		}
 	case *ast.SelectorExpr:
 		r.checkForbidden(n)
+	case *ast.CallExpr:
+		if r.isCtxErrCall(n) {
+			r.ctxErr[n] = true
+		} else if r.isCancelCall(n) {
+			r.ctxCancel[n] = true
+		}
 	case *ast.AssignStmt:
 		// v, ok := <-ch   /   v, ok = <-ch
 		if len(n.Lhs) == 2 && len(n.Rhs) == 1 {
@@ -225,6 +298,16 @@ func (r *rewriter) post(c *astutil.Cursor) bool {
 		if len(n.Args) == 1 && r.isBuiltin(n.Fun, "close") {
 			r.st.Closes++
 			c.Replace(r.vsCall("Close", n.Args[0]))
+		} else if r.ctxErr[n] {
+			r.st.CtxErrs++
+			c.Replace(r.vsCall("CtxErr", n.Fun.(*ast.SelectorExpr).X))
+		} else if r.ctxCancel[n] {
+			r.st.CtxCancels++
+			if len(n.Args) == 0 {
+				c.Replace(r.vsCall("CtxCancel", n.Fun))
+			} else {
+				c.Replace(r.vsCall("CtxCancelCause", append([]ast.Expr{n.Fun}, n.Args...)...))
+			}
 		}
 	}
 	return true
@@ -452,7 +535,8 @@ func Instrument(repoDir, outDir string) (*Result, error) {
 				continue
 			}
 			r := &rewriter{fset: p.Fset, info: p.TypesInfo, st: &res.Stats, file: src,
-				mapRange: map[*ast.RangeStmt]bool{}, chanRange: map[*ast.RangeStmt]bool{}}
+				mapRange: map[*ast.RangeStmt]bool{}, chanRange: map[*ast.RangeStmt]bool{},
+				ctxErr: map[*ast.CallExpr]bool{}, ctxCancel: map[*ast.CallExpr]bool{}}
 			out, err := r.file2(f, p.PkgPath == semReal)
 			if err != nil {
 				return nil, fmt.Errorf("%s: %w", src, err)
